@@ -13,7 +13,7 @@ THEOREMS = [
     "C07.included_only_first_partial", "C07.parent_builds_nearest", "C07.included_first_reported_partial",
     "C07.bump_build_reported_partial", "C07.reported_bump", "C07.skipped_version",
     "C07.included_first_spec_partial", "C07.included_first_exists_partial", "C07.included_first_git_partial",
-    "C07.analysis_total",
+    "C07.analysis_total", "C07.analysis_registrations",
 ]
 TEXT = "BUG-9"
 NAMES = ["app", "core", "lib", "mid", "util", "zeta"]        # repository id = position (sorted() order of the names)
@@ -968,7 +968,11 @@ LEVEL_TEXT = ("Repository ordering is fully proved on the model the driver runs 
               "graphs incl. self-dependencies (cycle_rejected) and nothing else can happen (repo_order_total). The whole "
               "multi-repository analysis is total (analysis_total): a dependency cycle's ValueError or the reports, none of the "
               "code's KeyError/AttributeError/TypeError/assertions is reachable, whatever the commit times, the pinned versions "
-              "(known or not) and the build graphs are. For included_at and bumps the clause is proved in git terms for a "
+              "(known or not) and the build graphs are. What the driver prints is linked to the objects of the theorems by analysis_registrations (the "
+              "graphs are rgraph of each history with the plug of the components analysed before, the printed included_at "
+              "entries are exactly the results of regsOfBuild); the hypotheses of the conditional theorems are shown to be "
+              "satisfiable, with a non-empty set of registrations, on a concrete diamond scenario (examples at the end of "
+              "Props/C07.lean). For included_at and bumps the clause is proved in git terms for a "
               "(parent branch, component release line) pair (included_first_git_partial): a reported parent build registers a "
               "reported component build exactly when the build's commit is a git ancestor of the component commit whose build "
               "tag the parent build pins, and of no component commit pinned by an eligible parent commit properly below. "
